@@ -2,6 +2,7 @@ use crate::engine::*;
 use serde_json::Value;
 
 pub mod c03;
+pub mod c04;
 
 pub struct Prop {
     pub info: &'static PropInfo,
@@ -12,5 +13,6 @@ pub struct Prop {
 pub fn all() -> Vec<Prop> {
     vec![
         Prop { info: &c03::INFO, run: c03::run, replay: c03::replay },
+        Prop { info: &c04::INFO, run: c04::run, replay: c04::replay },
     ]
 }
